@@ -287,6 +287,11 @@ impl Memfs {
 
     // Execute chmod with the given options
     fn _chmod(&self, opts: ChmodOpts) -> RvResult<()> {
+        // Reject a malformed symbolic expression before anything is changed
+        if !opts.sym.is_empty() && (opts.dirs == 0 || opts.files == 0) {
+            sys::mode(&self.entry(&opts.path)?, 0, &opts.sym)?;
+        }
+
         // Using `contents_first` to yield directories last so that revoking permissions happen to
         // directories as the last thing when completing the traversal, else we'll lock
         // ourselves out.
